@@ -43,6 +43,67 @@ func runC10(c *core.Ctx) core.Meta {
 	checkPhysicalLayout(c, pint, prov)
 	checkRoundRobinCursors(c, pint)
 
+	// ---------------- R10.16 a device's free list holds its own pages only ----------------
+	st16 := c.Rule("R10.16", "the free list of a device is filled with the pages [initialAddress, initialAddress + storageSize): in every loop of the allocator package whose counter advances by the page size and is compared with a bound derived from the device's storage size, the comparison excludes the bound (counter < bound). With <= the list gets one extra entry, the first page of the next device (or an address no device owns): it is handed out once the device has served as many allocations as it has pages, aliases the neighbour's first page and is returned to the neighbour's list by Free", 1)
+	for _, fn := range pint.Funcs {
+		for _, b := range fn.Blocks {
+			for _, in := range b.Instrs {
+				cmp, ok := in.(*ssa.BinOp)
+				if !ok {
+					continue
+				}
+				switch cmp.Op {
+				case token.LSS, token.LEQ, token.GTR, token.GEQ:
+				default:
+					continue
+				}
+				// counter on one side: a phi with an edge phi + pageSize
+				for _, pr := range [][2]ssa.Value{{cmp.X, cmp.Y}, {cmp.Y, cmp.X}} {
+					phi, ok := pr[0].(*ssa.Phi)
+					if !ok {
+						continue
+					}
+					pageStep := false
+					for _, e := range phi.Edges {
+						if add, ok := e.(*ssa.BinOp); ok && add.Op == token.ADD && (add.X == ssa.Value(phi) || add.Y == ssa.Value(phi)) {
+							step := add.Y
+							if add.Y == ssa.Value(phi) {
+								step = add.X
+							}
+							if ps := strings.ToLower(prov.Of(step)); strings.Contains(ps, "pagesize") {
+								pageStep = true
+							}
+						}
+					}
+					if !pageStep || !strings.Contains(prov.Of(pr[1]), "storageSize") {
+						continue
+					}
+					op := cmp.Op
+					if pr[0] == cmp.Y { // bound OP counter
+						switch op {
+						case token.LSS:
+							op = token.GTR
+						case token.LEQ:
+							op = token.GEQ
+						case token.GTR:
+							op = token.LSS
+						case token.GEQ:
+							op = token.LEQ
+						}
+					}
+					st16.Instances++
+					c.MarkAnalysed(fn)
+					ok = op == token.LSS
+					st16.Ob(ok)
+					st16.Sample("%s: pages are enumerated while %s %s %s", core.FuncName(fn), short(prov.Of(pr[0])), op, short(prov.Of(pr[1])))
+					if !ok {
+						c.ReportAt("R10.16", fn, cmp.Pos(), "free-list-includes-bound:"+core.FuncName(fn), core.FuncName(fn)+" enumerates the device's pages while the address is "+op.String()+" its end: the address just behind the device (the next device's first page) enters this device's free list and is handed out after as many allocations as the device has pages - a page outside the device, recorded under the neighbour's ID and possibly live there")
+					}
+				}
+			}
+		}
+	}
+
 	// ---------------- R10.15 FreeMemory always reaches the allocator ----------------
 	st15 := c.Rule("R10.15", "Driver.FreeMemory hands every pointer to the allocator: on every path from its entry to a return the allocator's Free is called (a must-pass). The per-context buffer list is bookkeeping for copies; contexts created for an existing process share the address space but not that list, so a free that is conditional on finding the pointer in the calling context's list leaves a buffer allocated through a sibling context mapped, and its physical pages are never reusable", 1)
 	if fn := c.MustFunc("R10.15", driverPkg, "Driver.FreeMemory"); fn != nil {
